@@ -747,6 +747,9 @@ func validatePlain(plainBin, id, tier string, stride int, obs map[int]string, wo
 				validated++
 				continue
 			}
+			if strings.Contains(got, "volatile") || strings.Contains(want, "volatile") {
+				continue
+			}
 			fails = append(fails, fail{Class: "CONFORMANCE:observation differs between instrumented and plain build", Index: g, Scenario: "conformance", Detail: fmt.Sprintf("instrumented %s\nplain %s", want, got)})
 		}
 	}
